@@ -371,16 +371,36 @@ class RuleDef:
     fn: Callable[["Ctx"], None]
     min_instances: int
     tier: str = "quick"
+    scoped: bool = False  # instances are reported only in the property's anchor files
 
 
 RULES: Dict[str, RuleDef] = {}
 
+ALL_PROPS = tuple(f"C{i:02d}" for i in range(1, 21))
+_ANCHORS: Dict[str, Tuple[str, ...]] = {}
 
-def rule(rid: str, props, title: str, min_instances: int = 1, tier="quick"):
+
+def anchor_files(prop: str) -> Tuple[str, ...]:
+    """The source files a property is anchored in (properties.jsonl, anchors.files)."""
+    if not _ANCHORS:
+        for line in (VERIF_ROOT / "properties.jsonl").read_text().splitlines():
+            if not line.strip():
+                continue
+            p = json.loads(line)
+            a = p.get("anchors")
+            if isinstance(a, str):
+                a = ast.literal_eval(a)
+            _ANCHORS[p["id"]] = tuple((a or {}).get("files", ()))
+    if prop not in _ANCHORS:
+        raise AnalysisError(f"no anchors for {prop}")
+    return _ANCHORS[prop]
+
+
+def rule(rid: str, props, title: str, min_instances: int = 1, tier="quick", scoped=False):
     def deco(fn):
         if rid in RULES:
             raise RuntimeError(f"duplicate rule {rid}")
-        RULES[rid] = RuleDef(rid, tuple(props), title, fn, min_instances, tier)
+        RULES[rid] = RuleDef(rid, tuple(props), title, fn, min_instances, tier, scoped)
         return fn
 
     return deco
@@ -515,6 +535,15 @@ def run_property(
             tb = traceback.format_exc(limit=6)
             errors.append(f"{rdef.rid}: checker crashed: {exc!r}\n{tb}")
         n = len(ctx.instances)
+        if rdef.scoped:
+            # a generic lint runs over the whole package (so that the instance
+            # floor is meaningful) but reports, under this property, only what
+            # lies in the files the property is anchored in
+            files = anchor_files(prop)
+            ctx.instances = [
+                i for i in ctx.instances
+                if i.where.split(":")[0] in files or not i.nontrivial
+            ]
         if n < rdef.min_instances and not any(
             e.startswith(rdef.rid + ":") for e in errors
         ):
